@@ -182,6 +182,34 @@ def regime_audit(chk, mod, lib):
                        sample={'obligation': '%s: path returns a real number, no log/sqrt/division '
                                'domain error reachable' % name, 'pc': [str(c) for c in p.pc[:4]]})
             chk.formulas.add(('audit', name, i))
+            # a path that returns a constant is a special-cased point: it must not extend over a window of arguments
+            # (a plateau has relative error slope*width and a jump at its edge)
+            if ex.dom.is_conc(p.retval):
+                r0, m0 = chk.solve(p.pc, 10000)
+                if r0 == 'sat':
+                    z0 = model_real(m0, z)
+                    sc = max(Fr(1, 10 ** 14), abs(z0))
+                    wit = None
+                    for w in (Fr(1, 10 ** 3), Fr(1, 10 ** 5), Fr(1, 10 ** 7), Fr(1, 10 ** 9)):
+                        r1, m1 = chk.solve(p.pc + [z3.Or(z - zr(z0) > zr(w * sc), zr(z0) - z > zr(w * sc))], 10000)
+                        if r1 == 'sat':
+                            wit = model_real(m1, z)
+                            break
+                        if r1 != 'unsat':
+                            wit = 'unknown'
+                            break
+                    ptag = '%s:constant-path#%d' % (name, i)
+                    if wit is None:
+                        chk.record(ptag, 'discharged', family='special-case-is-a-point',
+                                   sample={'obligation': '%s: the path returning the constant %s is confined to |z - z0| <= 1e-9 max(|z0|,1e-14)'
+                                           % (name, float(p.retval)), 'z0': float(z0)})
+                        chk.formulas.add(('constant-path', name, i))
+                    elif wit == 'unknown':
+                        chk.record(ptag, 'inconclusive', 'extent of the constant path undecided')
+                        chk.inconclusive.append(ptag)
+                    elif not confirm1(chk, lib, name, sym, wit, 'constant-plateau'):
+                        chk.record(ptag, 'gap', 'constant returned on a window around z=%s but accurate to 1e-7 at the witness %s'
+                                   % (float(z0), float(wit)), family='special-case-is-a-point')
             # special points
             for pt, table in ((Fr(0), O.AT_ZERO), (Fr(1, 4), O.AT_QUARTER)):
                 r, _ = chk.solve(p.pc + [z == zr(pt)], 5000)
